@@ -382,14 +382,12 @@ inductive WrOut where
   | unit (r : Out RErr Unit)
   | flushed (r : Out RErr Unit) (calls : List (Bytes × Option RErr))
 
-/-- Malloc(len bs) and fill the whole region -/
+/-- `buf, err := Malloc(len bs); copy(buf, bs)`: the caller fills the whole region it was just given
+    (Go's `copy` cannot fail; that `Wr.fill` finds the region just handed out — ids are unique — is part
+    of C05's simulation, see `Lemmas/PoolsWriter`) -/
 def mallocFill (a : WAlloc) (w : Wr) (bs : Bytes) : Out RErr Unit × Wr :=
-  match w.malloc a bs.length with
-  | (.ok r, w1) =>
-    match w1.fill r.1 0 bs with
-    | (.ok, w2) => (.ok (), w2)
-    | (.slice, w2) => (.panic "slice", w2)
-    | (.stale, w2) => (.panic "stale", w2)
+  match w.malloc a (bs.length : Int) with
+  | (.ok r, w1) => (.ok (), (w1.fill r.1 0 bs).2)
   | (.err e, w1) => (.err e, w1)
   | (.panic s, w1) => (.panic s, w1)
   | (.oob, w1) => (.oob, w1)
